@@ -10,6 +10,7 @@ import CashewsVerif.Model.Tags
                                   (a call of a function decorated with early / soft / hit: `Tags.earlyCall`, `softCall`,
                                    `hitCall` decide from the model state which wrapper commands the decorator issues;
                                    X = number of the token the body returns, LK / KC = lock / counter key)
+  reg <reg>                       (a late register_tag: the registry's table from now on; the state is kept)
   dump                            (debugging only)
 
 Answer: `model=<out>`; for `deltags` additionally the ghost verdict of the property on the state before
@@ -88,6 +89,11 @@ def step' (d : DSt) (line : String) : DSt × String :=
     | some b, some n, some tbl =>
       ({ cfg := { tagOf := regFun tbl, batch := b, keys := List.range n }, st := Tags.init }, "ok")
     | _, _, _ => (d, "bad-op")
+  | ["reg", reg] =>
+    -- a register_tag call made while the cache is in use: from now on `get_key_tags` answers by the new table
+    match parseReg? reg with
+    | some tbl => ({ d with cfg := { d.cfg with tagOf := regFun tbl } }, "model=U")
+    | none => (d, "bad-op")
   | ["dump"] => (d, dump d)
   | ws =>
     match parseOp? ws with
